@@ -651,7 +651,7 @@ pub fn check(ctx: &Ctx) {
                     len,
                     pat,
                     block: 0,
-                    hdr: (len % 3) % header_sets().len(),
+                    hdr: (len + pat as usize) % header_sets().len(),
                     checksum,
                 });
             }
